@@ -28,4 +28,5 @@ def main(tier):
     chk.run("R-SKIPLOSS", T.skiploss, r, s, cx.sites, modules=("dependency_checker.py",), floor=4)
     chk.run("R-NAMEDKINDS", P.namedkinds, r, s, cx.sites, floor=10)
     chk.run("R-DEPORDER", B.deporder, r, clauses=("text", "ok"), floor=3)
+    chk.run("R-CYCLEPATH", DR.cyclepath, cx.repo, floor=2)
     return chk.finish()
